@@ -4,13 +4,14 @@
 # Prints one line per change; exit 1 if any change is no longer caught.
 tier=${1:-quick}
 bad=0
-for d in /verif/seeded/*/; do
+V=$(cd $(dirname $0)/.. && pwd)
+for d in $V/seeded/*/; do
   id=$(basename $d)
   if python3 -c "import json,sys;sys.exit(0 if json.load(open('$d/meta.json')).get('neutralised') else 1)"; then
     echo "$id neutralised (kept for the record; see meta.json)"; continue
   fi
   checks=$(python3 -c "import json;m=json.load(open('$d/meta.json'));print(','.join(m.get('caught_by') or [m['property']]))")
-  out=$(python3 /verif/tools/seedtest.py $d --checks $checks --tier $tier 2>&1 | python3 -c "
+  out=$(python3 $V/tools/seedtest.py $d --checks $checks --tier $tier 2>&1 | python3 -c "
 import sys,json
 t=sys.stdin.read()
 try:
